@@ -701,8 +701,15 @@ def SUMPRODUCT(
             raise xlerrors.NaExcelError(
                 "Excel Errors are present in the sumproduct items.")
 
-    sumproduct = pd.concat(arrays, axis=1)
-    return sumproduct.prod(axis=1).sum()
+    # Multiply the corresponding entries of the arrays and add up the
+    # products. As in SUMIF, entries that are not numeric count as zero.
+    to_number = func_xltypes._safe_cast(
+        func_xltypes.Number.cast, func_xltypes.Number(0))
+    columns = [
+        [to_number(item).value for item in array.flat]
+        for array in arrays
+    ]
+    return sum(math.prod(items) for items in zip(*columns))
 
 
 @xl.register()
